@@ -45,7 +45,10 @@ def parseArgs (h : Heap) (s : String) : Option (List Arg) :=
 def parseOp (h : Heap) (s : String) : Option Op :=
   match s.splitOn ":" with
   | ["ap", p, a] => do let p ← resolve h p; let a ← parseArg h a; pure (.append p a)
-  | ["in", p, pos, as] => do let p ← resolve h p; let as ← parseArgs h as; pure (.insert p pos.toNat! as)
+  | ["in", p, pos, as] => do
+    let p ← resolve h p; let as ← parseArgs h as
+    -- a Python integer: negative positions count from the end, as in `list.insert` (Model/Heap.lean `normPos`, `insertZ`)
+    pure (.insert p (normPos (h.kids p).length pos.toInt!) as)
   | ["et", p, t] => do let p ← resolve h p; let t ← resolve h t; pure (.extendTag p t)
   | ["el", p, as] => do let p ← resolve h p; let as ← parseArgs h as; pure (.extendList p as)
   | ["ib", x, as] => do let x ← resolve h x; let as ← parseArgs h as; pure (.insertBefore x as)
